@@ -83,17 +83,36 @@ func setCurRec(r *evRec) {
 // upstream: a recording TCP server under the harness' control
 
 type upConn struct {
-	c    net.Conn
-	mu   sync.Mutex
-	got  []byte
-	eof  bool  // the read side saw a clean EOF
-	rerr error // any other read error
-	done chan struct{}
+	c          net.Conn
+	mu         sync.Mutex
+	got        []byte
+	eof        bool  // the read side saw a clean EOF
+	rerr       error // any other read error
+	done       chan struct{}
+	stallUntil time.Time // the reader does not read before this moment (a busy receiver)
+}
+
+func (u *upConn) stall(t time.Time) {
+	u.mu.Lock()
+	u.stallUntil = t
+	u.mu.Unlock()
+}
+func (u *upConn) count() int {
+	u.mu.Lock()
+	defer u.mu.Unlock()
+	return len(u.got)
 }
 
 func (u *upConn) reader() {
 	buf := make([]byte, 64<<10)
 	for {
+		u.mu.Lock()
+		st := u.stallUntil
+		u.mu.Unlock()
+		if d := time.Until(st); d > 0 {
+			time.Sleep(d)
+			continue
+		}
 		n, err := u.c.Read(buf)
 		u.mu.Lock()
 		u.got = append(u.got, buf[:n]...)
